@@ -116,6 +116,7 @@ StartInv ==
     /\ \E m \in ModeSet, hw \in HWSet, lp \in LPairs, J \in 1 .. JMax, dt \in {"f32", "f64"} :
           /\ InShard(hw)
           /\ \E none \in SUBSET (1 .. J) :
+                /\ (none = {} => dt = "f64")     \* the dtype only matters for substituted zeros
                 /\ call' = [api |-> "inv", mode |-> m, H |-> hw[1], W |-> hw[2], Lc |-> lp[1], Lr |-> lp[2],
                             J |-> J, none |-> none, dtype |-> dt]
                 /\ LET lh == RefLens2(m, hw[1], lp[1], J)
